@@ -317,6 +317,18 @@ def run(res, tier, seed):
     for _ in range(extra):
         M, bnds, prof = gen_system(rng)
         run_oracle(res, M, bnds, rng=rng)
+    for _ in range(40 if tier == "quick" else 400):
+        # a wide-range column (the default integer range) under a coefficient beyond 2^16: products beyond 32 bits
+        big = rng.choice([65537, 70000, 131072, 2 ** 20]) * rng.choice([1, 1, -1])
+        nb = rng.randint(1, 2)
+        Mw = [[rng.choice([1, 0, -5, 4178, big]), big] + [rng.choice([1, -1, 2]) for _ in range(nb)]]
+        if rng.random() < 0.5:
+            Mw = [[rng.choice([1, 1, 2, 0]), abs(big) if abs(big) % 65536 == 0 else 131072 * rng.choice([1, 2, 3])] + [1] * nb]      # powers of two: the wrap lands on round values
+        if rng.random() < 0.5:
+            Mw.append([rng.choice([0, 1]), rng.choice([0, 1, -1])] + [rng.choice([1, 0, -1]) for _ in range(nb)])
+        bw = [(-32768, 32767)] + [(0, 1)] * nb
+        res.count("wide_column_big_coefficient")
+        run_oracle(res, Mw, bw, rng=rng)
     for _ in range(6 if tier == "quick" else 60):
         # the sizes configurators produce (thousands of entries, a few per cent non-zero), with a planted solution
         M, bnds, x0 = gen_large_sparse_planted(rng)
